@@ -420,7 +420,24 @@ func bare(x *d.T, s d.S) {
 	s.PM()
 }
 `)
-	return []*IgBase{{Name: "all16", Files: []*IgFile{d, ua, ub, uc, va}}}
+	// a generated file (standard header): diagnostics in it are reported and suppressible like anywhere else
+	ug := &IgFile{Pkg: PathU, Name: "zz_generated.go"}
+	lines(ug, `// Code generated by protoc-gen-go. DO NOT EDIT.
+
+package u
+
+import "ex.com/m/d"
+
+func gen1(x *d.T, s d.S) {
+	x.F = 41
+	_ = d.T{}
+	s.Reset()
+	d.PF()
+}
+
+var GG = d.T{}
+`)
+	return []*IgBase{{Name: "all16", Files: []*IgFile{d, ua, ub, uc, va, ug}}}
 }
 
 // ---------------------------------------------------------------------------------------------
